@@ -209,6 +209,61 @@ func Build(name string, mand, opt []Slot) (*nas.Message, reflect.Value, error) {
 	return m, body, nil
 }
 
+// Refill writes the slot values into the elements the body ALREADY holds (same set of optional elements; the header octets
+// of the first `hdr` mandatory slots are left alone): the message object is edited in place, as a caller does between two
+// encodings of one object.
+func Refill(body reflect.Value, mand, opt []Slot, hdr int) error {
+	bv := body.Elem()
+	mi, oi := 0, 0
+	for j := 0; j < bv.NumField(); j++ {
+		bf := bv.Field(j)
+		if bf.Kind() == reflect.Ptr {
+			if oi < len(opt) && opt[oi].P && !bf.IsNil() {
+				if err := setIE(bf.Elem(), opt[oi]); err != nil {
+					return err
+				}
+			}
+			oi++
+		} else {
+			if mi >= hdr && mi < len(mand) {
+				if err := setIE(bf, mand[mi]); err != nil {
+					return err
+				}
+			}
+			mi++
+		}
+	}
+	return nil
+}
+
+// BodyOf: pointer to the first body the message holds.
+func BodyOf(m *nas.Message) (reflect.Value, bool) {
+	fam, ok := family(m)
+	if !ok {
+		return reflect.Value{}, false
+	}
+	for i := 0; i < fam.NumField(); i++ {
+		if f := fam.Field(i); f.Kind() == reflect.Ptr && !f.IsNil() {
+			return f, true
+		}
+	}
+	return reflect.Value{}, false
+}
+
+// SameShape: the message holds exactly one body, the named one, with exactly the optional elements marked present.
+func SameShape(m *nas.Message, name string, opt []Slot) bool {
+	p := Project(m)
+	if p.Msg != name || len(p.Bodies) != 1 || len(p.Opt) != len(opt) {
+		return false
+	}
+	for i := range opt {
+		if p.Opt[i].P != opt[i].P {
+			return false
+		}
+	}
+	return true
+}
+
 // EncodeBody calls Encode<Name>(buffer) on the body pointer.
 func EncodeBody(body reflect.Value, buf *bytes.Buffer) error {
 	name := body.Elem().Type().Name()
